@@ -260,6 +260,18 @@ fn specials(report: &Report) {
             report.violation(Violation { identity: i, detail: d, case: json!({"kind": "none"}) });
         }
     }
+    // signed zeros: +0.0 and -0.0 are the same weight (they compare equal), so ties among them are broken by index as well
+    for len in 2..=4usize {
+        for code in 0..4usize.pow(len as u32) {
+            let v: Vec<f64> = (0..len).map(|i| [0.0f64, -0.0, 1.0, 3.0][code / 4usize.pow(i as u32) % 4]).collect();
+            if !v.iter().any(|x| *x == 0.0 && x.is_sign_negative()) { continue; }
+            n += 1;
+            let (enc, dec) = match trees64(&v) { Ok(t) => t, Err((i, d)) => { report.violation(Violation { identity: i, detail: d, case: json!({"kind": "none"}) }); continue; } };
+            for (i, d) in check_trees(&format!("{:?}", v), v.len(), &enc, &dec, &reference_codewords(&v), None) {
+                report.violation(Violation { identity: i, detail: d, case: json!({"kind": "none"}) });
+            }
+        }
+    }
     // many symbols: 200 equal weights and a geometric sequence (deep tree)
     let eq = vec![1u64; 200];
     let geo: Vec<u64> = (0..40).map(|i| 1u64 << i).collect();
